@@ -391,9 +391,20 @@ match_interpolate(struct match *mh, const struct macro_list *macros)
 			size_t i;
 
 			for (i = 0; i < VECTOR_LENGTH(labels); i++) {
+				const char *p;
+
 				if (i > 0)
 					buffer_putc(bf, ' ');
-				buffer_printf(bf, "%s", labels[i]);
+				/*
+				 * The decoded value might contain line breaks which
+				 * must not end up in the header.
+				 */
+				for (p = labels[i]; *p != '\0'; p++) {
+					if (*p == '\n' || *p == '\r')
+						buffer_putc(bf, ' ');
+					else
+						buffer_putc(bf, *p);
+				}
 			}
 		}
 		TAILQ_FOREACH(str, mh->mh_expr->ex_strings, entry) {
